@@ -697,6 +697,9 @@ class UnionProxy:
         return bool(self.__target__)
 
     def __getattr__(self, attr: str) -> Any:
+        if attr in ("__union__", "__attr__", "__target__"):
+            # Not initialized (yet), e.g. while being copied or unpickled
+            raise AttributeError(attr)
         return getattr(self.__target__, attr)
 
     def __setattr__(self, attr: str, value: Any) -> None:
